@@ -28,6 +28,9 @@ type Spec struct {
 	Seed     uint64
 	Trackers []string
 	Webseeds []string
+	// HashOnly: when not nil, only these pieces get their true hash (the others a
+	// dummy one): for very long torrents of which only a few pieces are ever used
+	HashOnly []int
 }
 
 func bstr(s string) string { return fmt.Sprintf("%d:%s", len(s), s) }
@@ -46,7 +49,27 @@ func Bytes(s Spec) ([]byte, []byte) {
 	for _, f := range s.Files {
 		hasPad = hasPad || f.Pad
 	}
-	if !hasPad {
+	if s.HashOnly != nil {
+		only := map[int64]bool{}
+		for _, i := range s.HashOnly {
+			only[int64(i)] = true
+		}
+		n := (total + s.PieceLen - 1) / s.PieceLen
+		dummy := make([]byte, 20)
+		for i := int64(0); i < n; i++ {
+			if !only[i] {
+				hashes.Write(dummy)
+				continue
+			}
+			lo := i * s.PieceLen
+			hi := lo + s.PieceLen
+			if hi > total {
+				hi = total
+			}
+			h := sha1.Sum(content.Range(s.Seed, lo, int(hi-lo)))
+			hashes.Write(h[:])
+		}
+	} else if !hasPad {
 		for _, h := range content.PieceHashes(s.Seed, total, s.PieceLen) {
 			hashes.Write(h)
 		}
